@@ -247,6 +247,15 @@ def build(recipe):
         sg = gens.StmtGen(rnd, expr_depth=1)
         m = tu(gens.prelude() + [wrap_function(sg.items(recipe.get("depth", 4), False, False) + [sg.stmt(recipe.get("depth", 4))], name=f"f{i}")
                                  for i in range(recipe.get("count", 3))])
+    elif k == "k31":
+        # witnesses of the open finding K31 (pragma between 'switch (...)' and its body) and their twins without the pragma
+        def sw(body):
+            return M("switch", c=ident("c"), body=body)
+        blk = lambda: M("block", items=[M("case", e=gens.int_const("1"), stmt=M("expr", e=ident("x"))), M("expr", e=ident("y")),  # noqa: E731
+                                         M("case", e=gens.int_const("2"), stmt=M("default", stmt=M("break")))])
+        chain = lambda: M("case", e=gens.int_const("1"), stmt=M("default", stmt=M("expr", e=ident("x"))))  # noqa: E731
+        pr = lambda st: M("prag", pragmas=[M("pragma", text="omp p")], stmt=st)  # noqa: E731
+        m = tu([wrap_function([sw(pr(blk())), sw(blk()), sw(pr(chain())), sw(chain())])])
     else:
         raise KeyError(k)
     cfg = model.RenderCfg(mode, random.Random(recipe.get("seed", 0) + 1))
